@@ -117,6 +117,17 @@ Proof. vm_compute. reflexivity. Qed.
 Example e2e_ok_rejects_second_close_notify :
   e2e_ok ((0, false, false, false, true, 2), (true, false), ([1; 1], 1, 2, 0), (2, true), (1, 3, 2))%N = false.
 Proof. vm_compute. reflexivity. Qed.
-Example e2e_ok_simul_predicts_two :
-  e2e_ok ((4, false, false, false, true, 1), (false, false), ([1], 1, 0, 0), (2, true), (1, 3, 2))%N = true.
+(* Close placed between the read loop's close_notify reply and its close(false): one record *)
+Example e2e_ok_simul_predicts_one :
+  e2e_ok ((4, false, false, false, true, 1), (false, false), ([1], 1, 0, 0), (1, true), (1, 3, 2))%N = true.
+Proof. vm_compute. reflexivity. Qed.
+Example e2e_ok_simul_rejects_two :
+  e2e_ok ((4, false, false, false, true, 1), (false, false), ([1], 1, 0, 0), (2, true), (1, 3, 2))%N = false.
+Proof. vm_compute. reflexivity. Qed.
+(* a DTLS 1.3 Write blocked in the socket and interrupted by Close: ErrConnClosed, not Canceled *)
+Example e2e_ok_write13_closed :
+  e2e_ok ((0, true, false, false, true, 2), (true, true), ([1; 1], 1, 2, 3), (1, true), (1, 3, 2))%N = true.
+Proof. vm_compute. reflexivity. Qed.
+Example e2e_ok_write13_rejects_canceled :
+  e2e_ok ((0, true, false, false, true, 2), (true, true), ([1; 1], 1, 2, 6), (1, true), (1, 3, 2))%N = false.
 Proof. vm_compute. reflexivity. Qed.
